@@ -61,11 +61,6 @@ def receiving(ctx):
     core.design_check(ctx, "MC_Frames", "MC_Frames.cfg")
     scen = []
     for r in p_frames.gen_a(ctx, ctx_tails=True):
-        lim = r["sc"]["limit"]
-        if lim > 0 and any(f["flag"] not in (0, 1) for f in r["sc"]["frames"]):
-            # (the concrete terminator frames are larger than the design check's small limits: a terminator frame
-            #  above the read limit is C09's known finding, not this property's subject)
-            continue
         for script in ([[], p_frames.ONES] if ctx.tier == "quick" else [[], p_frames.ONES, p_frames.SPLIT]):
             s = p_frames.flat(r, script, False)
             scen.append(s)
